@@ -8,6 +8,7 @@ package main
 // "not translated" (it keeps its hand-written term, tied by correspondence only).
 
 import (
+	"debug/macho"
 	"fmt"
 	"go/ast"
 	"go/token"
@@ -23,7 +24,17 @@ type glEnv struct {
 	lits    map[string][]byte          // local / package names bound to byte-slice literals
 	ints    map[string]int64           // local / package integer constants
 	helpers map[string]*ast.FuncDecl   // same-package functions
+	hvars   map[string]string          // package-level detectors built by offset(..) / prefix(..): name -> bexp over raw
+	tabB    map[string][][]byte        // local tables of byte slices ([][]byte{...})
+	tabI    map[string][]int64         // local tables of integers ([]int{...})
 	depth   int
+}
+
+// constants of the standard library the detectors name; the values are the linked library's own
+var stdConsts = map[string]int64{
+	"macho.Magic32":  int64(macho.Magic32),
+	"macho.Magic64":  int64(macho.Magic64),
+	"macho.MagicFat": int64(macho.MagicFat),
 }
 
 type glFail struct{ why string }
@@ -57,6 +68,11 @@ func (e *glEnv) intOf(x ast.Expr) (int64, bool) {
 	case *ast.Ident:
 		n, ok := e.ints[v.Name]
 		return n, ok
+	case *ast.SelectorExpr:
+		if pk, ok := v.X.(*ast.Ident); ok {
+			n, ok := stdConsts[pk.Name+"."+v.Sel.Name]
+			return n, ok
+		}
 	case *ast.BinaryExpr:
 		a, ok1 := e.intOf(v.X)
 		c, ok2 := e.intOf(v.Y)
@@ -240,13 +256,31 @@ func (e *glEnv) bexp(x ast.Expr) string {
 				}
 			}
 		}
-		// same-package helper with a single-return body, called on raw
-		if id, ok := v.Fun.(*ast.Ident); ok && len(v.Args) >= 1 && e.isRaw(v.Args[0]) {
-			if h, ok := e.helpers[id.Name]; ok && e.depth < 3 && h.Body != nil && len(h.Body.List) == 1 {
-				if rs, ok := h.Body.List[0].(*ast.ReturnStmt); ok && len(rs.Results) == 1 && len(h.Type.Params.List) >= 1 && len(h.Type.Params.List[0].Names) >= 1 {
-					sub := &glEnv{raw: h.Type.Params.List[0].Names[0].Name, u: map[string]string{}, lits: e.lits, ints: e.ints, helpers: e.helpers, depth: e.depth + 1}
-					return sub.bexp(rs.Results[0])
+		if len(v.Args) == 2 && e.isRaw(v.Args[0]) {
+			if lits, ok := e.litOf(v.Args[1]); ok {
+				if sel, ok := v.Fun.(*ast.SelectorExpr); ok && sel.Sel.Name == "Equal" {
+					if pk, ok := sel.X.(*ast.Ident); ok && pk.Name == "bytes" {
+						// bytes.Equal(raw, L): same length and L a prefix
+						return fmt.Sprintf("(BAnd (BLen CEq %d) (BPrefixAt 0 %s))", len(lits), glBytes(lits))
+					}
 				}
+			}
+		}
+		// same-package helper called on raw: a single return is taken as an expression, a longer body is translated
+		// as a program and inlined through GoLite.inl (proved to evaluate like the program, Panic included)
+		if id, ok := v.Fun.(*ast.Ident); ok && len(v.Args) >= 1 && e.isRaw(v.Args[0]) {
+			if hv, ok := e.hvars[id.Name]; ok {
+				return hv
+			}
+			if h, ok := e.helpers[id.Name]; ok && e.depth < 3 && h.Body != nil && len(h.Type.Params.List) >= 1 && len(h.Type.Params.List[0].Names) >= 1 {
+				sub := &glEnv{raw: h.Type.Params.List[0].Names[0].Name, u: map[string]string{}, lits: copyMap(e.pkgLits()), ints: copyMap(e.pkgInts()), helpers: e.helpers, hvars: e.hvars,
+					tabB: map[string][][]byte{}, tabI: map[string][]int64{}, depth: e.depth + 1}
+				if len(h.Body.List) == 1 {
+					if rs, ok := h.Body.List[0].(*ast.ReturnStmt); ok && len(rs.Results) == 1 {
+						return sub.bexp(rs.Results[0])
+					}
+				}
+				return "(inl " + sub.prog(h.Body.List) + ")"
 			}
 		}
 	}
@@ -259,32 +293,218 @@ func (e *glEnv) isLen(c *ast.CallExpr) bool {
 	return ok && id.Name == "len" && len(c.Args) == 1 && e.isRaw(c.Args[0])
 }
 
+func stripConv(l ast.Expr) ast.Expr {
+	for {
+		switch v := l.(type) {
+		case *ast.ParenExpr:
+			l = v.X
+			continue
+		case *ast.CallExpr:
+			// value-preserving conversions of an unsigned 8/16/32-bit value on a 64-bit platform
+			if id, ok := v.Fun.(*ast.Ident); ok && len(v.Args) == 1 && (id.Name == "int" || id.Name == "uint" || id.Name == "int64" || id.Name == "uint64" || id.Name == "uint32") {
+				if _, isInt := v.Args[0].(*ast.BasicLit); !isInt {
+					l = v.Args[0]
+					continue
+				}
+			}
+		}
+		return l
+	}
+}
+
+// atomOf renders the left side of a comparison: "BLen", "BByte 3", "BU32 BE 0"; width is the value's bit width
+func (e *glEnv) atomOf(l ast.Expr) (string, int, bool) {
+	l = stripConv(l)
+	if c, ok := l.(*ast.CallExpr); ok && e.isLen(c) {
+		return "BLen", 0, true
+	}
+	if ix, ok := l.(*ast.IndexExpr); ok && e.isRaw(ix.X) {
+		if i, ok := e.intOf(ix.Index); ok && i >= 0 {
+			return fmt.Sprintf("BByte %d", i), 8, true
+		}
+	}
+	if a, ok := e.uintAtom(l); ok {
+		w := 32
+		if strings.HasPrefix(a, "BU16") {
+			w = 16
+		}
+		return a, w, true
+	}
+	return "", 0, false
+}
+
 func (e *glEnv) cmpAtom(l ast.Expr, op token.Token, r ast.Expr) (string, bool) {
 	k, ok := e.intOf(r)
 	if !ok || k < 0 {
 		return "", false
 	}
-	if p, ok := l.(*ast.ParenExpr); ok {
-		l = p.X
-	}
-	if c, ok := l.(*ast.CallExpr); ok && e.isLen(c) {
-		return fmt.Sprintf("(BLen %s %d)", cmpNames[op], k), true
-	}
-	if ix, ok := l.(*ast.IndexExpr); ok && e.isRaw(ix.X) {
-		if i, ok := e.intOf(ix.Index); ok && i >= 0 {
-			return fmt.Sprintf("(BByte %d %s %d)", i, cmpNames[op], k), true
+	l = stripConv(l)
+	// (x & M) == K  /  != K with few free bits: the disjunction over the values of x that the mask maps to K.
+	// Every disjunct reads the same bytes, so the Panic behaviour is that of the single masked read.
+	if be, ok := l.(*ast.BinaryExpr); ok && be.Op == token.AND && (op == token.EQL || op == token.NEQ) {
+		x, mexp := be.X, be.Y
+		m, okm := e.intOf(mexp)
+		if !okm {
+			x, mexp = be.Y, be.X
+			m, okm = e.intOf(mexp)
 		}
+		if a, w, oka := e.atomOf(x); okm && oka && w > 0 && m >= 0 {
+			full := int64(1)<<uint(w) - 1
+			free := full &^ m
+			var freeBits []int64
+			for b := int64(1); b <= full; b <<= 1 {
+				if free&b != 0 {
+					freeBits = append(freeBits, b)
+				}
+			}
+			if len(freeBits) > 4 {
+				return "", false
+			}
+			var vals []int64
+			if k&^m == 0 && k <= full {
+				for sub := 0; sub < 1<<uint(len(freeBits)); sub++ {
+					v := k
+					for j, b := range freeBits {
+						if sub&(1<<uint(j)) != 0 {
+							v |= b
+						}
+					}
+					vals = append(vals, v)
+				}
+			}
+			sort.Slice(vals, func(i, j int) bool { return vals[i] < vals[j] })
+			out := "(BConst false)"
+			for i := len(vals) - 1; i >= 0; i-- {
+				at := fmt.Sprintf("(%s CEq %d)", a, vals[i])
+				if i == len(vals)-1 {
+					out = at
+				} else {
+					out = "(BOr " + at + " " + out + ")"
+				}
+			}
+			if len(vals) == 0 {
+				// the read still happens: keep its Panic behaviour with a comparison that is never true
+				return "", false
+			}
+			if op == token.NEQ {
+				out = "(BNot " + out + ")"
+			}
+			return out, true
+		}
+		return "", false
 	}
-	if a, ok := e.uintAtom(l); ok {
+	if a, _, ok := e.atomOf(l); ok {
 		return fmt.Sprintf("(%s %s %d)", a, cmpNames[op], k), true
 	}
 	return "", false
 }
 
-func (e *glEnv) prog(stmts []ast.Stmt) string {
-	if len(stmts) == 0 {
-		glf("function body falls off the end")
+func copyMap[K comparable, V any](m map[K]V) map[K]V {
+	out := map[K]V{}
+	for k, v := range m {
+		out[k] = v
 	}
+	return out
+}
+
+var glPkgLits map[string][]byte
+var glPkgInts map[string]int64
+
+func (e *glEnv) pkgLits() map[string][]byte { return glPkgLits }
+func (e *glEnv) pkgInts() map[string]int64  { return glPkgInts }
+
+func (e *glEnv) prog(stmts []ast.Stmt) string {
+	return e.progK(stmts, func() string { glf("function body falls off the end"); return "" })
+}
+
+// if c { if d { return v } }  ->  (c && d, return v)
+func (e *glEnv) ifRet(s *ast.IfStmt) (string, *ast.ReturnStmt) {
+	if s.Init != nil || s.Else != nil || len(s.Body.List) != 1 {
+		glf("if statement with init / else / several statements")
+	}
+	c := e.bexp(s.Cond)
+	switch b := s.Body.List[0].(type) {
+	case *ast.ReturnStmt:
+		if len(b.Results) != 1 {
+			glf("if body is not a single return")
+		}
+		return c, b
+	case *ast.IfStmt:
+		c2, rs := e.ifRet(b)
+		return "(BAnd " + c + " " + c2 + ")", rs
+	}
+	glf("if body is not a single return")
+	return "", nil
+}
+
+// tableOf: the elements of a literal table a loop ranges over, as integers or as byte slices
+func (e *glEnv) tableOf(x ast.Expr) ([]int64, [][]byte, bool) {
+	if id, ok := x.(*ast.Ident); ok {
+		if t, ok := e.tabI[id.Name]; ok {
+			return t, nil, true
+		}
+		if t, ok := e.tabB[id.Name]; ok {
+			return nil, t, true
+		}
+		if b, ok := e.lits[id.Name]; ok {
+			t := make([]int64, len(b))
+			for i, v := range b {
+				t[i] = int64(v)
+			}
+			return t, nil, true
+		}
+	}
+	return nil, nil, false
+}
+
+func (e *glEnv) tableLit(x ast.Expr) ([]int64, [][]byte, bool) {
+	cl, ok := x.(*ast.CompositeLit)
+	if !ok {
+		return nil, nil, false
+	}
+	at, ok := cl.Type.(*ast.ArrayType)
+	if !ok || at.Len != nil {
+		return nil, nil, false
+	}
+	if id, ok := at.Elt.(*ast.Ident); ok && (id.Name == "int" || id.Name == "uint32" || id.Name == "uint16" || id.Name == "int64") {
+		var out []int64
+		for _, el := range cl.Elts {
+			v, ok := e.intOf(el)
+			if !ok {
+				return nil, nil, false
+			}
+			out = append(out, v)
+		}
+		return out, nil, true
+	}
+	if in, ok := at.Elt.(*ast.ArrayType); ok && in.Len == nil {
+		if id, ok := in.Elt.(*ast.Ident); ok && id.Name == "byte" {
+			var out [][]byte
+			for _, el := range cl.Elts {
+				b, ok := byteSliceLit(el)
+				if !ok {
+					return nil, nil, false
+				}
+				out = append(out, b)
+			}
+			return nil, out, true
+		}
+	}
+	return nil, nil, false
+}
+
+func setVar(m map[string]int64, id ast.Expr, v int64) {
+	if i, ok := id.(*ast.Ident); ok && i.Name != "_" {
+		m[i.Name] = v
+	}
+}
+
+// progK translates a statement list; k renders what follows it
+func (e *glEnv) progK(stmts []ast.Stmt, k func() string) string {
+	if len(stmts) == 0 {
+		return k()
+	}
+	rest := func() string { return e.progK(stmts[1:], k) }
 	switch s := stmts[0].(type) {
 	case *ast.ReturnStmt:
 		if len(s.Results) != 1 {
@@ -292,34 +512,132 @@ func (e *glEnv) prog(stmts []ast.Stmt) string {
 		}
 		return "(PRet " + e.bexp(s.Results[0]) + ")"
 	case *ast.IfStmt:
-		if s.Init != nil || s.Else != nil || len(s.Body.List) != 1 {
-			glf("if statement with init / else / several statements")
-		}
-		rs, ok := s.Body.List[0].(*ast.ReturnStmt)
-		if !ok || len(rs.Results) != 1 {
-			glf("if body is not a single return")
-		}
-		c := e.bexp(s.Cond)
-		rest := e.prog(stmts[1:])
+		c, rs := e.ifRet(s)
 		if id, ok := rs.Results[0].(*ast.Ident); ok && (id.Name == "true" || id.Name == "false") {
-			return fmt.Sprintf("(PIfRet %s %s %s)", c, id.Name, rest)
+			return fmt.Sprintf("(PIfRet %s %s %s)", c, id.Name, rest())
 		}
 		v := e.bexp(rs.Results[0])
-		return fmt.Sprintf("(PIfRet (BAnd %s %s) true (PIfRet %s false %s))", c, v, c, rest)
+		return fmt.Sprintf("(PIfRet (BAnd %s %s) true (PIfRet %s false %s))", c, v, c, rest())
+	case *ast.RangeStmt:
+		// for i, v := range TABLE { .. }: unrolled over the literal table, the variables bound to constants
+		ti, tb, ok := e.tableOf(s.X)
+		if !ok || s.Tok != token.DEFINE && s.Key != nil {
+			glf("range over something that is not a literal table")
+		}
+		n := len(ti) + len(tb)
+		if n > 64 {
+			glf("table too long to unroll")
+		}
+		var iter func(i int) string
+		iter = func(i int) string {
+			if i == n {
+				return rest()
+			}
+			if s.Key != nil {
+				setVar(e.ints, s.Key, int64(i))
+			}
+			if s.Value != nil {
+				if vid, ok := s.Value.(*ast.Ident); ok && vid.Name != "_" {
+					if ti != nil {
+						e.ints[vid.Name] = ti[i]
+						delete(e.lits, vid.Name)
+					} else {
+						e.lits[vid.Name] = tb[i]
+						delete(e.ints, vid.Name)
+					}
+				}
+			}
+			return e.progK(s.Body.List, func() string { return iter(i + 1) })
+		}
+		return iter(0)
+	case *ast.ForStmt:
+		// for i := A; i < B; i++ { .. } with constant bounds: unrolled
+		as, ok1 := s.Init.(*ast.AssignStmt)
+		cond, ok2 := s.Cond.(*ast.BinaryExpr)
+		post, ok3 := s.Post.(*ast.IncDecStmt)
+		if !ok1 || !ok2 || !ok3 || as.Tok != token.DEFINE || len(as.Lhs) != 1 || len(as.Rhs) != 1 || post.Tok != token.INC {
+			glf("for statement outside the fragment")
+		}
+		iv, okv := as.Lhs[0].(*ast.Ident)
+		a, oka := e.intOf(as.Rhs[0])
+		ci, okc := cond.X.(*ast.Ident)
+		pi, okp := post.X.(*ast.Ident)
+		b, okb := e.intOf(cond.Y)
+		if !okv || !oka || !okc || !okp || !okb || ci.Name != iv.Name || pi.Name != iv.Name || (cond.Op != token.LSS && cond.Op != token.LEQ) {
+			glf("for statement outside the fragment")
+		}
+		if cond.Op == token.LEQ {
+			b++
+		}
+		if b-a > 64 {
+			glf("loop too long to unroll")
+		}
+		var iter func(i int64) string
+		iter = func(i int64) string {
+			if i >= b {
+				delete(e.ints, iv.Name)
+				return rest()
+			}
+			e.ints[iv.Name] = i
+			return e.progK(s.Body.List, func() string { return iter(i + 1) })
+		}
+		return iter(a)
+	case *ast.SwitchStmt:
+		// switch TAG { case K..: return true|false }: one test per clause, in order; no default, no fallthrough
+		if s.Init != nil || s.Tag == nil {
+			glf("switch statement outside the fragment")
+		}
+		var tests []string
+		for _, cs := range s.Body.List {
+			cc := cs.(*ast.CaseClause)
+			if cc.List == nil || len(cc.Body) != 1 {
+				glf("switch clause outside the fragment")
+			}
+			rs, ok := cc.Body[0].(*ast.ReturnStmt)
+			if !ok || len(rs.Results) != 1 {
+				glf("switch clause outside the fragment")
+			}
+			id, ok := rs.Results[0].(*ast.Ident)
+			if !ok || (id.Name != "true" && id.Name != "false") {
+				glf("switch clause outside the fragment")
+			}
+			c := ""
+			for i := len(cc.List) - 1; i >= 0; i-- {
+				a, ok := e.cmpAtom(s.Tag, token.EQL, cc.List[i])
+				if !ok {
+					glf("switch tag or case value outside the fragment")
+				}
+				if c == "" {
+					c = a
+				} else {
+					c = "(BOr " + a + " " + c + ")"
+				}
+			}
+			tests = append(tests, fmt.Sprintf("(PIfRet %s %s ", c, id.Name))
+		}
+		return strings.Join(tests, "") + rest() + strings.Repeat(")", len(tests))
 	case *ast.AssignStmt:
 		if s.Tok == token.DEFINE && len(s.Lhs) == 1 && len(s.Rhs) == 1 {
 			if id, ok := s.Lhs[0].(*ast.Ident); ok {
 				if a, ok := e.uintAtom(s.Rhs[0]); ok {
 					e.u[id.Name] = a
-					return e.prog(stmts[1:])
+					return rest()
 				}
 				if b, ok := e.litOf(s.Rhs[0]); ok {
 					e.lits[id.Name] = b
-					return e.prog(stmts[1:])
+					return rest()
 				}
 				if n, ok := e.intOf(s.Rhs[0]); ok {
 					e.ints[id.Name] = n
-					return e.prog(stmts[1:])
+					return rest()
+				}
+				if ti, tb, ok := e.tableLit(s.Rhs[0]); ok {
+					if tb != nil {
+						e.tabB[id.Name] = tb
+					} else {
+						e.tabI[id.Name] = ti
+					}
+					return rest()
 				}
 			}
 		}
@@ -338,7 +656,7 @@ func (e *glEnv) prog(stmts []ast.Stmt) string {
 					glf("constant declaration outside the fragment")
 				}
 			}
-			return e.prog(stmts[1:])
+			return rest()
 		}
 		glf("declaration outside the fragment")
 	}
@@ -347,6 +665,12 @@ func (e *glEnv) prog(stmts []ast.Stmt) string {
 }
 
 // translateFuncs returns name -> Coq term for the translatable detector functions, and name -> reason for the rest
+// combTerms: package-level detectors built by a combinator whose closure body lies in the fragment (prefix, offset,
+// ftyp, jpeg2k), translated from the closure body with the combinator's parameters bound to the literal arguments
+// of that use.  name -> Coq term
+var glCombTerms map[string]string
+var glCombFailed map[string]string
+
 func translateFuncs(repo string) (map[string]string, map[string]string) {
 	_, files := parseDir(filepath.Join(repo, "internal", "magic"))
 	helpers := map[string]*ast.FuncDecl{}
@@ -374,6 +698,167 @@ func translateFuncs(repo string) (map[string]string, map[string]string) {
 							}
 						}
 					}
+				}
+			}
+		}
+	}
+	glPkgLits, glPkgInts = pkgLits, pkgInts
+	// package-level detectors built by the offset / prefix combinators, as other functions call them:
+	//   offset(sig, K)  = len(raw) > K && bytes.HasPrefix(raw[K:], sig)      prefix(s1..sn) = HasPrefix(raw, s1) || ..
+	hvars := map[string]string{}
+	for _, f := range files {
+		for _, d := range f.Decls {
+			gd, ok := d.(*ast.GenDecl)
+			if !ok || gd.Tok != token.VAR {
+				continue
+			}
+			for _, sp := range gd.Specs {
+				vs, ok := sp.(*ast.ValueSpec)
+				if !ok {
+					continue
+				}
+				for i, n := range vs.Names {
+					if i >= len(vs.Values) {
+						continue
+					}
+					c, ok := vs.Values[i].(*ast.CallExpr)
+					if !ok {
+						continue
+					}
+					fn, ok := c.Fun.(*ast.Ident)
+					if !ok {
+						continue
+					}
+					switch fn.Name {
+					case "offset":
+						if len(c.Args) == 2 {
+							sig, ok1 := byteSliceLit(c.Args[0])
+							off, ok2 := intLit(c.Args[1])
+							if ok1 && ok2 && off >= 0 {
+								hvars[n.Name] = fmt.Sprintf("(BAnd (BLen CGt %d) (BPrefixAt %d %s))", off, off, glBytes(sig))
+							}
+						}
+					case "prefix":
+						out := ""
+						okAll := len(c.Args) > 0
+						for j := len(c.Args) - 1; j >= 0; j-- {
+							sig, ok := byteSliceLit(c.Args[j])
+							if !ok {
+								okAll = false
+								break
+							}
+							at := fmt.Sprintf("(BPrefixAt 0 %s)", glBytes(sig))
+							if out == "" {
+								out = at
+							} else {
+								out = "(BOr " + at + " " + out + ")"
+							}
+						}
+						if okAll {
+							hvars[n.Name] = out
+						}
+					}
+				}
+			}
+		}
+	}
+	glCombTerms = map[string]string{}
+	glCombFailed = map[string]string{}
+	for _, f := range files {
+		for _, d := range f.Decls {
+			gd, ok := d.(*ast.GenDecl)
+			if !ok || gd.Tok != token.VAR {
+				continue
+			}
+			for _, sp := range gd.Specs {
+				vs, ok := sp.(*ast.ValueSpec)
+				if !ok {
+					continue
+				}
+				for i, n := range vs.Names {
+					if i >= len(vs.Values) {
+						continue
+					}
+					c, ok := vs.Values[i].(*ast.CallExpr)
+					if !ok {
+						continue
+					}
+					fn, ok := c.Fun.(*ast.Ident)
+					if !ok || !(fn.Name == "prefix" || fn.Name == "offset" || fn.Name == "ftyp" || fn.Name == "jpeg2k") {
+						continue
+					}
+					comb, ok := helpers[fn.Name]
+					if !ok || comb.Body == nil || len(comb.Body.List) != 1 {
+						glCombFailed[n.Name] = "combinator " + fn.Name + " is not a single return of a closure"
+						continue
+					}
+					rs, ok := comb.Body.List[0].(*ast.ReturnStmt)
+					if !ok || len(rs.Results) != 1 {
+						glCombFailed[n.Name] = "combinator " + fn.Name + " is not a single return of a closure"
+						continue
+					}
+					fl, ok := rs.Results[0].(*ast.FuncLit)
+					if !ok || !isDetectorSig(fl.Type) || len(fl.Type.Params.List) == 0 || len(fl.Type.Params.List[0].Names) == 0 {
+						glCombFailed[n.Name] = "combinator " + fn.Name + " does not return a detector closure"
+						continue
+					}
+					func() {
+						defer func() {
+							if r := recover(); r != nil {
+								if gf, ok := r.(glFail); ok {
+									glCombFailed[n.Name] = gf.why
+									return
+								}
+								panic(r)
+							}
+						}()
+						env := &glEnv{raw: fl.Type.Params.List[0].Names[0].Name, u: map[string]string{}, lits: copyMap(pkgLits), ints: copyMap(pkgInts), helpers: helpers, hvars: hvars,
+							tabB: map[string][][]byte{}, tabI: map[string][]int64{}}
+						// bind the combinator's parameters to this use's literal arguments
+						ai := 0
+						for _, fld := range comb.Type.Params.List {
+							for _, pn := range fld.Names {
+								switch ft := fld.Type.(type) {
+								case *ast.Ellipsis:
+									var tb [][]byte
+									for ; ai < len(c.Args); ai++ {
+										b, ok := byteSliceLit(c.Args[ai])
+										if !ok {
+											glf("argument %d of %s is not a byte literal", ai, fn.Name)
+										}
+										tb = append(tb, b)
+									}
+									env.tabB[pn.Name] = tb
+									if tb == nil {
+										env.tabB[pn.Name] = [][]byte{}
+									}
+								case *ast.ArrayType:
+									if ai >= len(c.Args) {
+										glf("missing argument of %s", fn.Name)
+									}
+									b, ok := byteSliceLit(c.Args[ai])
+									if !ok {
+										glf("argument %d of %s is not a byte literal", ai, fn.Name)
+									}
+									env.lits[pn.Name] = b
+									ai++
+								case *ast.Ident:
+									if ai >= len(c.Args) || ft.Name != "int" {
+										glf("parameter %s of %s outside the fragment", pn.Name, fn.Name)
+									}
+									v, ok := intLit(c.Args[ai])
+									if !ok {
+										glf("argument %d of %s is not an integer literal", ai, fn.Name)
+									}
+									env.ints[pn.Name] = v
+									ai++
+								default:
+									glf("parameter %s of %s outside the fragment", pn.Name, fn.Name)
+								}
+							}
+						}
+						glCombTerms[n.Name] = env.prog(fl.Body.List)
+					}()
 				}
 			}
 		}
@@ -406,7 +891,8 @@ func translateFuncs(repo string) (map[string]string, map[string]string) {
 			for k, v := range pkgInts {
 				ints[k] = v
 			}
-			env := &glEnv{raw: fd.Type.Params.List[0].Names[0].Name, u: map[string]string{}, lits: lits, ints: ints, helpers: helpers}
+			env := &glEnv{raw: fd.Type.Params.List[0].Names[0].Name, u: map[string]string{}, lits: lits, ints: ints, helpers: helpers, hvars: hvars,
+				tabB: map[string][][]byte{}, tabI: map[string][]int64{}}
 			done[name] = env.prog(fd.Body.List)
 		}()
 	}
@@ -444,6 +930,34 @@ func writeFuncTerms(repo, outDir string) bool {
 			sep = ""
 		}
 		fmt.Fprintf(&sb, "  (%q, %q)%s\n", n, failed[n], sep)
+	}
+	sb.WriteString("].\n\n")
+	cn := make([]string, 0, len(glCombTerms))
+	for n := range glCombTerms {
+		cn = append(cn, n)
+	}
+	sort.Strings(cn)
+	sb.WriteString("(* detectors built by prefix / offset / ftyp / jpeg2k: the combinator's closure body with its parameters bound to\n   the literal arguments of the use *)\nDefinition gen_comb_terms : list (string * prog) := [\n")
+	for i, n := range cn {
+		sep := ";"
+		if i == len(cn)-1 {
+			sep = ""
+		}
+		fmt.Fprintf(&sb, "  (%q, %s)%s\n", n, natify(glCombTerms[n]), sep)
+	}
+	sb.WriteString("].\n\n")
+	cf := make([]string, 0, len(glCombFailed))
+	for n := range glCombFailed {
+		cf = append(cf, n)
+	}
+	sort.Strings(cf)
+	sb.WriteString("Definition gen_comb_untranslated : list (string * string) := [\n")
+	for i, n := range cf {
+		sep := ";"
+		if i == len(cf)-1 {
+			sep = ""
+		}
+		fmt.Fprintf(&sb, "  (%q, %q)%s\n", n, glCombFailed[n], sep)
 	}
 	sb.WriteString("].\n")
 	return writeIfChanged(filepath.Join(outDir, "FuncTerms.v"), []byte(sb.String()))
